@@ -925,17 +925,25 @@ func profSplit(t *tape.Tape) model.Profile {
 
 func init() { profiles["split"] = profSplit }
 
-// splitLast distributes the top-level items of the last module over k submodules.
+// splitLast distributes the top-level items of one module (usually the last) over k submodules.
 func splitLast(s *model.Scenario, t *tape.Tape) (*model.Scenario, int) {
 	n := s.Clone()
 	var m *model.Mod
+	var cands []*model.Mod
 	for _, x := range n.Mods {
 		if !x.IsSub() && x.Name != model.PosixModule {
 			m = x
+			cands = append(cands, x)
 		}
 	}
 	if m == nil {
 		return n, 0
+	}
+	// usually the last module; in a third of the cases another one, which later
+	// modules import: its typedefs, groupings and identities are then referred
+	// to across the import, through the importer's prefix
+	if wt := t.Sub("which"); len(cands) > 1 && wt.Chance(1, 3) {
+		m = cands[wt.Intn(len(cands)-1)]
 	}
 	k := t.Range(1, 4)
 	subs := make([]*model.Mod, k)
